@@ -52,6 +52,11 @@ type c04Probe struct {
 
 // runHS runs one handshake to the end (both sides returned, or nothing can happen any more).
 func runHS(rc *RC, h *HS, cancelAt int, cancelSide int) (cancelStep int, cancelTime time.Duration) {
+	return runHSLive(rc, h, cancelAt, cancelSide, false)
+}
+
+// runHSLive: with live set the peer of the cancelled side carries on as if nothing had happened.
+func runHSLive(rc *RC, h *HS, cancelAt int, cancelSide int, live bool) (cancelStep int, cancelTime time.Duration) {
 	h.Start()
 	start := rc.S.Steps
 	cancelStep = -1
@@ -62,6 +67,11 @@ func runHS(rc *RC, h *HS, cancelAt int, cancelSide int) (cancelStep int, cancelT
 				x, peer := h.C, h.S
 				if cancelSide == 1 {
 					x, peer = h.S, h.C
+				}
+				if live {
+					x.cancel()
+					rc.Fire("cancel-live")
+					return
 				}
 				peer.conn.Conn.Out().StallNow() // the peer goes silent from this instant …
 				if peer.task != nil && h.freezePeer {
@@ -155,7 +165,7 @@ func runC04(rc *RC) {
 		f.variant = j % 3
 		f.silent = j%2 == 0
 	} else {
-		f.kind = []string{"cut", "cut", "cut", "readerr", "writeerr", "cancel", "cancel", "none"}[ch.Int("faults", 8)]
+		f.kind = []string{"cut", "cut", "cut", "readerr", "writeerr", "cancel", "cancel", "none", "cancel-live"}[ch.Int("faults", 9)]
 		f.side = ch.Int("faults", 2)
 		f.variant = ch.Int("faults", 3)
 		f.silent = ch.Chance("faults", 1, 2)
@@ -183,6 +193,11 @@ func runC04(rc *RC) {
 		case "cancel":
 			f.k = ch.Int("faults", max(1, []int{pr.stepsC, pr.stepsS}[f.side]-p.C.retStep+max(pr.stepsC, pr.stepsS))+1)
 			f.k = ch.Int("faults", max(pr.stepsC, pr.stepsS)+2)
+		case "cancel-live":
+			// the caller gives up while the peer carries on: before the call (k = 0) or after k steps
+			if !ch.Chance("faults", 1, 4) {
+				f.k = ch.Int("faults", max(pr.stepsC, pr.stepsS)+2)
+			}
 		}
 	}
 	rc.Describe("hs=%s plain=%v strategy=%s fault=%v probe(c2s=%d s2c=%d reads=%d/%d writes=%d/%d)", kind, plainT, strat, f, pr.lc2s, pr.ls2c, pr.rc, pr.rs, pr.wc, pr.ws)
@@ -215,7 +230,10 @@ func runC04(rc *RC) {
 			h.freezePeer = true
 		}
 	}
-	cancelStep, cancelTime := runHS(rc, h, cancelAt, f.side)
+	if f.kind == "cancel-live" {
+		cancelAt = f.k
+	}
+	cancelStep, cancelTime := runHSLive(rc, h, cancelAt, f.side, f.kind == "cancel-live")
 	checkSides(rc, h, f, pr, cancelStep, cancelTime, false)
 	stuck := rc.Teardown()
 	rc.CheckPanics("C04.c1")
@@ -276,6 +294,24 @@ func checkSides(rc *RC, h *HS, f c04Fault, pr c04Probe, cancelStep int, cancelTi
 				} else if x.err == nil {
 					rc.Failf("C04.c2", "cut-not-detected:"+h.kind+"/"+role, "%s returned nil although the peer's stream was cut after %d of %d bytes (near %q)", role, f.k, L, tail(d.Tap, 60))
 				}
+			}
+		}
+		// c7: the context ended before negotiation had completed, the peer carried on. Where the library is certain to
+		// look at its context - before anything else when the call starts, and, as the initiator, every time it has sent a
+		// stream header and turns to read the peer's - a context that has ended must end the call with an error.
+		if f.kind == "cancel-live" && f.side == i && cancelStep >= 0 && !x.scripted && x.done && x.err == nil {
+			rc.Evals["C04.c7"]++
+			late := -1
+			for _, w := range x.conn.hdrWrites {
+				if w > cancelStep {
+					late = w
+				}
+			}
+			switch {
+			case f.k == 0:
+				rc.Failf("C04.c7", "cancelled-before-call-succeeds:"+h.kind+"/"+role, "%s: the context had ended before the call started (peer alive, transport deadlines=%v) and the call returned a nil error and a session in state %v", role, !h.plain, stateOf(rc, x.sess))
+			case i == 0 && late >= 0:
+				rc.Failf("C04.c7", "cancel-ignored-at-stream-start:"+h.kind+"/"+role, "%s: the context ended at step %d (peer alive, transport deadlines=%v); the initiator opened a new stream at step %d, read the peer's header and went on to a nil error", role, cancelStep, !h.plain, late)
 			}
 		}
 		// c5: cancellation with a silent peer on a deadline-capable transport
